@@ -1,5 +1,7 @@
 import F3.Gen.Core
 import F3.Model.Power
+import F3.Spec.Quorum
+import F3.Model.Instance
 /-!
 # C08 — Quorum arithmetic is exact and quorums intersect on the whole power domain
 
@@ -203,5 +205,147 @@ example : isStrongQuorum 2 3 = true ∧ isStrongQuorum 1 3 = false ∧ hasWeakQu
 example : couldReachStrongQuorum false 30 25 5 = false ∧ couldReachStrongQuorum true 30 25 5 = true := by
   decide
 example : scaled [10, 20, 30] = some ([10922, 21845, 32767], 65534) := by decide
+
+/-! ## The predicates the tally executes are the code's
+
+The instance model's tally (`F3.Instance.weakQ`, `Tally.couldReach`, `strongQ`) and the quorum driver
+evaluate the hand-written `F3.Spec.Quorum.{strong, weak, couldReach}`; the theorems above are about the
+definitions regenerated from `gpbft/gpbft.go`. They are the same functions wherever the total is
+non-negative (`whole` is a sum of scaled powers) — for EVERY part / voted / support, not only inside
+the power domain `0 ≤ support ≤ voted ≤ w ≤ 65535`. Exact domains of agreement:
+* `couldReach`: all integers (for a negative total both are constantly `false`: the `min … w` caps);
+* `weak`: exactly the totals with `0 ≤ w ∨ w % 3 = 0` (`weak_agreement_domain`); below zero Go's
+  truncating `/` makes `divCeil` overshoot by one;
+* `strong`: proved for `0 ≤ w` (`strong_iff`); it differs below zero for the same reason (example below).
+Inside the power domain `0 ≤ support ≤ voted ≤ w ≤ 65535` there is therefore NO disagreement. -/
+section Bridges
+
+theorem divCeil3_neg (a : Int) (h : a < 0) :
+    divCeil a 3 = -((-a) / 3) + (if (-a) % 3 = 0 then 0 else 1) := by
+  obtain ⟨n, rfl⟩ : ∃ n, a = -n := ⟨-a, by omega⟩
+  have hn : 0 ≤ n := by omega
+  unfold divCeil
+  simp only [Int.neg_tdiv, Int.neg_tmod, Int.tdiv_eq_ediv_of_nonneg hn, Int.tmod_eq_emod_of_nonneg hn,
+    Int.neg_neg]
+  by_cases hr : n % 3 = 0 <;> simp [hr]
+
+/-- (already used by C04 and C03 through `strong_iff`) -/
+theorem strong_is_the_codes_predicate (p w : Int) (hw : 0 ≤ w) :
+    F3.Spec.Quorum.strong p w = isStrongQuorum p w := by
+  rw [Bool.eq_iff_iff, strong_iff p w hw]
+  simp [F3.Spec.Quorum.strong]
+
+/-- The weak-quorum rule the model's tally evaluates is `hasWeakQuorum` of `gpbft/gpbft.go`. -/
+theorem weak_is_the_codes_predicate (p w : Int) (hw : 0 ≤ w) :
+    F3.Spec.Quorum.weak p w = hasWeakQuorum p w := by
+  have h := divCeil3_nonneg w hw
+  have : divCeil w 3 = (w + 2) / 3 := by omega
+  unfold F3.Spec.Quorum.weak hasWeakQuorum
+  rw [this]
+
+/-- `0 ≤ w` (or a multiple of 3) is exactly where the two weak-quorum rules agree. -/
+theorem weak_agreement_domain (w : Int) :
+    (∀ p, F3.Spec.Quorum.weak p w = hasWeakQuorum p w) ↔ (0 ≤ w ∨ w % 3 = 0) := by
+  constructor
+  · intro h
+    by_cases hw : 0 ≤ w
+    · exact Or.inl hw
+    · refine Or.inr ?_
+      have hd := divCeil3_neg w (by omega)
+      have := h (divCeil w 3)
+      unfold F3.Spec.Quorum.weak hasWeakQuorum at this
+      simp only [gt_iff_lt, Int.lt_irrefl, decide_false, decide_eq_false_iff_not, Int.not_lt] at this
+      by_cases hr : (-w) % 3 = 0
+      · omega
+      · rw [if_neg hr] at hd; omega
+  · rintro (hw | hw) p
+    · exact weak_is_the_codes_predicate p w hw
+    · by_cases hw0 : 0 ≤ w
+      · exact weak_is_the_codes_predicate p w hw0
+      · have hd := divCeil3_neg w (by omega)
+        rw [if_pos (by omega)] at hd
+        have : divCeil w 3 = (w + 2) / 3 := by omega
+        unfold F3.Spec.Quorum.weak hasWeakQuorum
+        rw [this]
+
+/-- The "could still reach a strong quorum" rule the model's tally evaluates is
+`quorumState.CouldReachStrongQuorumFor` of `gpbft/gpbft.go` (arguments in the order of the generated
+definition: adversary flag, scaled total, power of the senders seen, power supporting the value) —
+for all integers: no domain restriction is needed. -/
+theorem could_reach_is_the_codes_predicate (adv : Bool) (w voted support : Int) :
+    F3.Spec.Quorum.couldReach adv w voted support = couldReachStrongQuorum adv w voted support := by
+  by_cases hw : 0 ≤ w
+  · unfold F3.Spec.Quorum.couldReach couldReachStrongQuorum
+    rw [strong_is_the_codes_predicate _ _ hw]
+    cases adv
+    · rfl
+    · simp only [if_true, Int.tdiv_eq_ediv_of_nonneg hw]
+  · -- a negative total: whatever is added, `min … w ≤ w` is below both thresholds
+    have hd := divCeil3_neg (2 * w) (by omega)
+    have hge : w < divCeil (2 * w) 3 := by
+      by_cases hr : (-(2 * w)) % 3 = 0
+      · rw [if_pos hr] at hd; omega
+      · rw [if_neg hr] at hd; omega
+    have hl : ∀ x : Int, F3.Spec.Quorum.strong (min x w) w = false := by
+      intro x
+      unfold F3.Spec.Quorum.strong
+      simp only [decide_eq_false_iff_not]
+      omega
+    have hr : ∀ x : Int, isStrongQuorum (min x w) w = false := by
+      intro x
+      unfold isStrongQuorum
+      simp only [decide_eq_false_iff_not]
+      omega
+    unfold F3.Spec.Quorum.couldReach couldReachStrongQuorum
+    simp only [hl, hr]
+
+/-- `weakQ`, which the instance model's tally runs (`Tally.fromWeak`: the round-skip rule), is the code's
+`hasWeakQuorum` on the table's scaled total -/
+theorem weakQ_is_the_codes_predicate (t : F3.Instance.Table) (p : Nat) :
+    F3.Instance.weakQ t p = hasWeakQuorum (p : Int) (t.total : Int) :=
+  weak_is_the_codes_predicate _ _ (by omega)
+
+/-- `Tally.couldReach` of the instance model is the code's `CouldReachStrongQuorumFor` applied to the
+table's scaled total, the power of the senders seen and the power recorded for the value (0 if none) -/
+theorem couldReach_is_the_codes_predicate (t : F3.Instance.Table) (q : F3.Instance.Tally)
+    (c : F3.Instance.Chain) (adv : Bool) :
+    q.couldReach t c adv =
+      couldReachStrongQuorum adv (t.total : Int) (q.sendersPower : Int)
+        (match q.findSupport c with | some s => (s.power : Int) | none => 0) := by
+  unfold F3.Instance.Tally.couldReach
+  exact could_reach_is_the_codes_predicate adv _ _ _
+
+/-- hence the facts proved above about the regenerated predicates hold of what the tally executes:
+a power the tally counts as a weak quorum strictly exceeds a third of the table … -/
+theorem weakQ_gt_third (t : F3.Instance.Table) (p : Nat) (h : F3.Instance.weakQ t p = true) :
+    3 * p > t.total := by
+  rw [weakQ_is_the_codes_predicate] at h
+  have := weak_gt_third _ _ (by omega) h
+  omega
+
+/-- … and a value the tally reports as unable to reach a strong quorum cannot reach one: whatever power
+`extra` of members that have not voted yet is added to its support, `strongQ` stays false -/
+theorem couldReach_false_sound (t : F3.Instance.Table) (q : F3.Instance.Tally) (c : F3.Instance.Chain)
+    (sup : F3.Instance.Support) (hs : q.findSupport c = some sup) (hsv : sup.power ≤ q.sendersPower)
+    (hvw : q.sendersPower ≤ t.total) (extra : Nat) (hextra : extra + q.sendersPower ≤ t.total)
+    (h : q.couldReach t c false = false) : F3.Instance.strongQ t (sup.power + extra) = false := by
+  rw [couldReach_is_the_codes_predicate, hs] at h
+  have := could_reach_sound false (t.total : Int) (q.sendersPower : Int) (sup.power : Int) (extra : Int)
+    (by omega) (by omega) (by omega) (by omega) (by simp; omega) (by omega) h
+  unfold F3.Instance.strongQ
+  rw [strong_is_the_codes_predicate _ _ (by omega)]
+  simpa using this
+
+-- non-vacuity, and the domain is exact: below a zero total the hand-written and the generated
+-- weak rules differ (never reached: totals are sums of scaled powers)
+example : F3.Spec.Quorum.weak 1 (-1) = true ∧ hasWeakQuorum 1 (-1) = false := by decide
+example : F3.Spec.Quorum.strong (-1) (-1) = false ∧ isStrongQuorum 0 (-1) = false ∧
+    F3.Spec.Quorum.strong 0 (-1) = true := by decide
+example : F3.Instance.weakQ { entries := [(1, 3), (2, 3), (3, 3)] } 4 = true ∧
+    F3.Instance.weakQ { entries := [(1, 3), (2, 3), (3, 3)] } 3 = false := by decide
+example : F3.Spec.Quorum.couldReach false 30 25 5 = false ∧ F3.Spec.Quorum.couldReach true 30 25 5 = true := by
+  decide
+
+end Bridges
 
 end F3.Props.C08
